@@ -97,6 +97,18 @@ Definition stmt_C07_retries_contiguous : Prop :=
     (a_pw a = a_pw b -> a_k a = a_k b -> a_msgs a = a_msgs b /\ a_tp a = a_tp b) /\
     (a_tp a = a_tp b -> a_pw a = a_pw b).
 
+(* the sender goroutine of a partition writer has at most one produce round trip in flight:
+   attempt k+1 of a batch is started only after the round trip of attempt k has RETURNED (in
+   the model an attempt and its answer are one step): the attempts started for the batch being
+   sent are exactly its journalled (returned) round trips; batches not yet being sent have none *)
+Definition stmt_C07_one_round_trip_in_flight : Prop :=
+  forall cfg ls s, runs cfg ls s ->
+  forall p pw, nth_error (s_pws s) p = Some pw ->
+    (forall sd, pw_snd pw = Some sd ->
+       length (filter (fun a => Nat.eqb (a_pw a) p && Nat.eqb (a_k a) (b_k (sd_batch sd))) (s_journal s)) = sd_att sd) /\
+    (forall b, In b (pw_queue pw ++ opt_list (pw_curr pw)) ->
+       filter (fun a => Nat.eqb (a_pw a) p && Nat.eqb (a_k a) (b_k b)) (s_journal s) = []).
+
 (* ------------------------------------------------------------------ C01 *)
 Definition acked_attempt (cfg : config) (s : state) (m : msg) : Prop :=
   exists a, In a (s_journal s) /\ a_applied a = true /\ a_seen a = None /\
